@@ -10,6 +10,7 @@ import (
 
 	"github.com/cloudwego/gopkg/bufiox"
 	"github.com/cloudwego/gopkg/protocol/thrift"
+	"github.com/cloudwego/gopkg/unsafex"
 
 	"verifharness/doubles"
 	"verifharness/drv"
@@ -532,6 +533,24 @@ func checkWriters(cs *drv.Case, v cval, want []byte) bool {
 	if len(out) != len(pre)+len(want) || !bytes.Equal(out[:len(pre)], pre) || !bytes.Equal(out[len(pre):], want) {
 		return fail("append-writer", fmt.Sprintf("appended %s", hexOf(out[minInt(len(pre), len(out)):])))
 	}
+	// the value to append may already lie where it is going to end up (a payload received in place behind its
+	// 4-byte length slot, in the spare capacity of the destination): appending it must not destroy it first
+	if (v.K == kString || v.K == kBinary) && len(v.S) > 0 {
+		blk := make([]byte, len(pre)+4+len(v.S)+cs.R.Intn(9))
+		copy(blk, pre)
+		val := blk[len(pre)+4 : len(pre)+4+len(v.S)]
+		copy(val, v.S)
+		var out2 []byte
+		if v.K == kString {
+			out2 = thrift.Binary.AppendString(blk[:len(pre)], unsafex.BinaryToString(val))
+		} else {
+			out2 = thrift.Binary.AppendBinary(blk[:len(pre)], val)
+		}
+		if len(out2) != len(pre)+len(want) || !bytes.Equal(out2[len(pre):], want) {
+			return fail("append-writer", fmt.Sprintf("appending a value that lies in the destination's spare capacity, right where it will end up, produced %s", hexOf(out2[minInt(len(pre), len(out2)):minInt(len(out2), len(pre)+64)])))
+		}
+		cs.C.Obs("appends of values lying in the destination's spare capacity", 1)
+	}
 	if len(pre)+len(want) <= len(full) { // the value fitted: it was written in place
 		for i := len(pre) + len(want); i < len(full); i++ {
 			if full[i] != 0xA5^byte(i) {
@@ -566,12 +585,14 @@ func c01Sequence(cs *drv.Case, vals []cval, sched int, withData bool) {
 	// they stay, the encoding follows them
 	var target []byte
 	var prefix []byte
-	switch cs.R.Intn(4) {
+	switch cs.R.Intn(5) {
 	case 1:
 		prefix = gen.Bytes(cs.R, 1+cs.R.Intn(40))
 		target = append(make([]byte, 0, len(prefix)+cs.R.Intn(3)*50), prefix...)
 	case 2:
 		target = make([]byte, 0, 1+cs.R.Intn(5000))
+	case 3:
+		target = []byte{} // not nil, no capacity
 	}
 	yw := bufiox.NewBytesWriter(&target)
 	bw2 := thrift.NewBufferWriter(yw)
